@@ -120,3 +120,25 @@ Lemma ex_indices :
   running_lists p_scan ex_sorted 0 = [[0; 1; 1; 2]; [3; 3]; [4; 5; 5]]%Z /\
   running_lists p_cscan ex_sorted 0 = [[0; 0; 0; 1]; [2; 2]; [3; 3; 3]]%Z.
 Proof. destruct ex_in_range as (A & B). repeat split; try assumption; reflexivity. Qed.
+
+(* finding C19-F4: an integer sensor of an unsigned type (values 3, 200) held by the first of two parts only: the
+   property asks for the concatenation with dummy fill (spec_sensor answers), ConcatenatedSensorCache.get raises *)
+Definition ex_BU : part :=
+  mkPart 100 2 [0; 4; 8; 12]%Z (c1 4) (c1 4) (mk [2; 3]%Z [0; 1] [0; 1; 4])
+         (mk [1; 0]%Z [0; 1; 0] [0; 1; 3; 4]) (mk [1; 2]%Z [0; 1] [0; 3; 4]) (mk [0; 1; 2]%Z [0; 1; 2] [0; 1; 3; 4])
+         (mk [0; 1]%Z [0; 1] [0; 3; 4])
+         [(9%Z, SCat SensorCache.DInt (mk [3; 200]%Z [0; 1] [0; 1; 4]))].
+Definition ex_U : list part := [ex_BU; ex_C].
+
+Lemma ex_unsigned_refuted :
+  exists input ps m name l,
+    sort_parts input = Some ps /\ Forall part_ok ps /\ concat_open input = COk m /\ Forall (sens_ok name) ps /\
+    mixed_kinds name ps = false /\ spec_sensor ps name = Some l /\
+    get_sensor_u (m_parts m) name false true = RFail.
+Proof.
+  exists ex_U, ex_U, (match concat_open ex_U with COk m => m | CErr _ => mkMerged [] [] 0 [] [] [] end), 9%Z,
+         [3; 200; 200; 200; -1; -1]%Z.
+  split; [reflexivity|]. split; [repeat constructor; cdok|]. split; [reflexivity|]. split.
+  - constructor; [|constructor; [|constructor]]; (split; [cbn; lia|]); cbn; intros dt c Hc; inversion Hc; subst; cdok.
+  - repeat split; reflexivity.
+Qed.
